@@ -94,7 +94,15 @@ def to_rows(D, base=0x1000):
         tid = ix['type'][t['name']]
         R.add('S_DT', DT_ID=tid, Dom_ID=0, Name=t['name'], Descrip='', DefaultValue='')
         pe(tid, t['parent'], 3)
-        if t['kind'] == 'enum':
+        if t['kind'] == 'sdt':
+            # structured data type with two members
+            R.add('S_SDT', DT_ID=tid)
+            prev = 0
+            for mn, mt in (('x', 'integer'), ('label', 'string')):
+                mid = R.id()
+                R.add('S_MBR', Member_ID=mid, Name=mn, Descrip='', Parent_DT_DT_ID=tid, DT_ID=core_id(mt), Previous_Member_ID=prev, Dimensions='')
+                prev = mid
+        elif t['kind'] == 'enum':
             R.add('S_EDT', DT_ID=tid)
             prev = 0
             for en in t['enumerators']:
